@@ -1,14 +1,22 @@
 --------------------------- MODULE Scen_Proposer ---------------------------
 (* Scenario generator for C05.  A scenario is the environment's side of the HISTORY of one       *)
 (* service instance: how the service is built (graffiti provider, proposal provider with or     *)
-(* without NodeClient, auctioneer, unblind-from-all), and, for each of its NDuties duties in    *)
-(* turn, what each collaborator answers.  TLC walks the sequential part of Proposer.tla's       *)
-(* design (`Next`) and collects the environment's choices in `sc`; the concurrent part (the     *)
-(* relay goroutines) is represented by one script per candidate relay - the order in which the  *)
-(* goroutines run is not the driver's to choose.  Every terminal path is printed once           *)
-(* (exhaustive mode).  The first duty ranges over the full sets, the later ones over the        *)
-(* Later... sets (bounds; which failure of an earlier duty is followed by which later duty is   *)
-(* enumerated completely within them).                                                          *)
+(* without NodeClient, auctioneer, unblind-from-all), the duty objects it is handed (`duties`,   *)
+(* in the order in which they are made: slot, validator and what each collaborator answers in    *)
+(* the calls for that duty object) and the SCHEDULE of the calls (`sched`): which duty object is *)
+(* prepared / proposed / dropped when, and - for calls that overlap - which call passes its next *)
+(* interface call when.  TLC walks Proposer.tla's design (`Next`, including NewDuty and Switch   *)
+(* within MaxOpen / MaxInFlight) and collects the environment's choices in `sc`; the concurrent  *)
+(* part inside one Propose (the relay goroutines) is represented by one script per candidate     *)
+(* relay - the order in which those goroutines run is not the driver's to choose.  Every         *)
+(* terminal path is printed once (exhaustive mode), or the paths of a seeded random walk         *)
+(* (simulation mode, for the overlapping families).  The first duty object ranges over the full  *)
+(* sets, the later ones over the Later... sets (bounds).                                         *)
+(* The schedule: prepare h / propose h (the call starts and goes up to its first interface call), *)
+(* step h (the call passes that interface call and goes up to the next one, or returns), release *)
+(* h (the relays that hold the call answer), drop h.  A call that is about to return is not      *)
+(* switched away from (the driver cannot hold a call between its last interface call and its     *)
+(* return).                                                                                      *)
 (* The scripts of a relay:                                                                      *)
 (*   full     returns the full block for what it was sent                                      *)
 (*   err      fails every attempt (the code tries three times, 250 ms apart)                    *)
@@ -16,6 +24,7 @@
 (*   nilresp  returns no response and no error                                                  *)
 (*   never    does not return until the context ends                                            *)
 (*   errfull  fails the first attempt, returns the full block on the second                     *)
+(*   heldfull returns the full block when the schedule says release (the call is held meanwhile) *)
 (* Graffiti: static (a text) / template (a text with {{CLIENT}}; the code then asks the          *)
 (* proposal provider for the node client: ok / err) / err (the provider fails).                 *)
 EXTENDS Proposer, Json
@@ -45,11 +54,21 @@ SInit ==
     /\ Init
     /\ CfgFilter = "graffiti" => (cfg.graffiti /\ ~cfg.unblindAll)
     /\ CfgFilter = "nonodeclient" => ~cfg.nodeclient
-    /\ sc = [cfg |-> cfg, duties |-> <<Base(duty)>>]
+    /\ sc = [cfg |-> cfg, duties |-> <<Base(duty)>>, sched |-> <<[op |-> "prepare", h |-> 1]>>]
 
-Put(f, x) == sc' = [sc EXCEPT !.duties[k][f] = x]
+Sched(op) == [op |-> op, h |-> cur]
 
-Delivers(script) == \E r \in DOMAIN script : script[r] \in {"full", "errfull"}
+\* an interface call of handle cur: what the collaborator answers, and the call passes that gate
+Put(f, x) == sc' = [sc EXCEPT !.duties[cur][f] = x, !.sched = Append(@, Sched("step"))]
+
+Delivers(script) == \E r \in DOMAIN script : script[r] \in {"full", "errfull", "heldfull"}
+Holds(script) == \E r \in DOMAIN script : script[r] = "heldfull"
+
+\* the relays of handle cur have their scripts (and, with heldfull, hold the call)
+RelaysChosen == \E r \in 1..NRelays : sc.duties[cur].relays[r] # "none"
+
+\* the call on handle cur is about to return
+Returning == pc \in {"prepfailed", "prepared"} \/ (pc \in ProposePcs /\ MayReturn)
 
 \* ok / err of a step that either works or fails
 StepOuts == Bound({"ok", "err"}, LaterStepOuts)
@@ -57,7 +76,10 @@ StepOuts == Bound({"ok", "err"}, LaterStepOuts)
 SNext ==
     \/ \E out \in Bound(PrepOuts, LaterPrepOuts) : AccountsCall(Epoch(duty.slot), <<duty.v>>, out) /\ Put("accounts", out)
     \/ \E out \in Bound({"ok", "err"}, LaterPrepOuts \cap {"ok", "err"}) : RandaoCall(duty.v, duty.slot, out, 1) /\ Put("randao", out)
-    \/ ProposeCall /\ UNCHANGED sc
+    \/ pc \in {"prepfailed", "prepared"} /\ PrepRet /\ UNCHANGED sc
+    \/ ProposeCall /\ sc' = [sc EXCEPT !.sched = Append(@, Sched("propose"))]
+    \* a prepared duty is dropped only where duty objects live side by side (a refresh replaced it)
+    \/ MaxOpen > 1 /\ Drop /\ sc' = [sc EXCEPT !.sched = Append(@, Sched("drop"))]
     \/ \E out \in Bound(GraffitiOuts, LaterGraffitiOuts) : GraffitiCall(out) /\ Put("graffiti", out)
     \/ \E out \in Bound({"ok", "err"}, LaterNodeClientOuts) : NodeClientCall(out) /\ Put("nodeclient", out)
     \/ /\ pc = "auction" /\ "err" \in StepOuts
@@ -79,22 +101,33 @@ SNext ==
                         Root(prop.id, "body"), out, 1)
             /\ Put("sign", out)
     \* the relays' scripts and the submission outcome, in one step
-    \/ /\ pc = "signed" /\ sig # 0 /\ prop.blinded /\ Cand # {}
+    \/ /\ pc = "signed" /\ sig # 0 /\ prop.blinded /\ Cand # {} /\ ~RelaysChosen
        /\ \E script \in [Cand -> Bound(Scripts, LaterScripts)] :
           \E sub \in (IF Delivers(script) THEN StepOuts ELSE {"na"}) :
-            sc' = [sc EXCEPT !.duties[k].relays = [r \in 1..NRelays |-> IF r \in Cand THEN script[r] ELSE "none"],
-                             !.duties[k].submit = sub]
+            /\ sc' = [sc EXCEPT !.duties[cur].relays = [r \in 1..NRelays |-> IF r \in Cand THEN script[r] ELSE "none"],
+                                !.duties[cur].submit = sub]
+            \* a relay that holds the call: the call stays where it is until `release`
+            /\ pc' = IF Holds(script) THEN pc ELSE "done"
+       /\ UNCHANGED <<hvars, acct, randao, graffiti, nodeclient, auction, preq, prop, sreq, sig, calls, sent, fulls,
+                      cancelled, submitted, subout>>
+    \/ /\ pc = "signed" /\ sig # 0 /\ prop.blinded /\ RelaysChosen
+       /\ sc' = [sc EXCEPT !.sched = Append(@, Sched("release"))]
        /\ pc' = "done"
        /\ UNCHANGED <<hvars, acct, randao, graffiti, nodeclient, auction, preq, prop, sreq, sig, calls, sent, fulls,
                       cancelled, submitted, subout>>
     \/ /\ sig # 0 /\ ~prop.blinded
        /\ \E out \in StepOuts : SubmitCall(OwnDesc(prop, sig), out) /\ Put("submit", out)
-    \/ MayReturn /\ Ret /\ UNCHANGED sc
-    \/ \E g \in SlotGaps : \E v \in Validators :
-            /\ NextDuty(duty.slot + g, v)
-            /\ sc' = [sc EXCEPT !.duties = Append(@, Base([slot |-> duty.slot + g, v |-> v]))]
+    \/ MayReturn /\ ~RelaysChosen /\ Ret /\ UNCHANGED sc
+    \/ /\ ~Returning
+       /\ \E g \in SlotGaps : \E v \in Validators :
+            /\ NewDuty(LastSlot + g, v)
+            /\ sc' = [sc EXCEPT !.duties = Append(@, Base([slot |-> LastSlot + g, v |-> v])),
+                                !.sched = Append(@, [op |-> "prepare", h |-> k + 1])]
+    \/ /\ ~Returning
+       /\ \E h \in Handles : Switch(h)
+       /\ UNCHANGED sc
 
 SSpec == SInit /\ [][SNext]_svars
 
-Emit == (pc = "done" /\ k = NDuties) => PrintT(ToJson(sc))
+Emit == (k = NDuties /\ Open = {}) => PrintT(ToJson(sc))
 =============================================================================
